@@ -13,6 +13,7 @@ Definition v_val (v : value) : fl := f32_of_bits (v_bits v).
 (* error class codes (DESIGN.md C13) *)
 Definition E_EMPTY := 10.        (* SourceError: input is empty *)
 Definition E_CHROM_ORDER := 11.  (* SourceError: chromosomes out of order *)
+Definition E_CHROM_SPLIT := 12.  (* InvalidInput: a chromosome appears in two separate runs *)
 Definition E_UNKNOWN_CHROM := 20.
 Definition E_START_GT_END := 30.
 Definition E_END_GT_CHROM := 31.
@@ -162,10 +163,16 @@ Fixpoint process_runs (o : opts) (sizes : list (name * N)) (prev : option name) 
       match lookup c sizes with
       | None => Err E_UNKNOWN_CHROM
       | Some len =>
-          let (ids', id) := get_id ids c in
-          do _ <- check_chrom len vals;
-          do (ids'', outs) <- process_runs o sizes (Some c) ids' rest;
-          Ok (ids'', {| co_id := id; co_name := c; co_len := len; co_vals := vals |} :: outs)
+          (* a chromosome whose run reappears is refused (/repo 6b10d42): checked after the size
+             lookup and before an id is handed out *)
+          match lookup c ids with
+          | Some _ => Err E_CHROM_SPLIT
+          | None =>
+              let (ids', id) := get_id ids c in
+              do _ <- check_chrom len vals;
+              do (ids'', outs) <- process_runs o sizes (Some c) ids' rest;
+              Ok (ids'', {| co_id := id; co_name := c; co_len := len; co_vals := vals |} :: outs)
+          end
       end
   end.
 
